@@ -12,12 +12,13 @@ from .. import observe as O
 
 FA_NAMES = {"int": [0, 1, 2], "str": ["q0", "q1", "q2"], "odd": ["q 0", "q\"1'", "été"],
             "helper": ["starting_q1", "q1", "INITIAL_STACK_HIDDEN"], "mix": [1, "1", "x y"]}
-FA_SYMS = {"ab": ["a", "b"], "odd": ["a b", "α"], "num": [1, "1"]}
+FA_SYMS = {"ab": ["a", "b"], "odd": ["a b", "α"], "num": [1, "1"], "zero": [0, ""]}      # zero: falsy symbol values
 CFG_SPELL = {"plain": (["S", "A", "B"], ["a", "b"]), "lowervar": (["S", "x", "y1"], ["a", "b"]),
              "capter": (["S", "A", "B"], ["Xa", "B1"]), "both": (["S", "x", "y1"], ["Xa", "B1"]),
              "same": (["S", "A", "B"], ["A", "b"]), "samelower": (["S", "a", "y1"], ["a", "b"]),
              "startlower": (["a", "S", "y1"], ["a", "b"]), "nonascii": (["S", "A", "B"], ["Ölaf", "Ωb"]),
-             "epsspelt": (["S", "A", "B"], ["$", "ε"])}     # terminals spelt like the reader's epsilon markers
+             "epsspelt": (["S", "A", "B"], ["$", "ε"]),
+             "oddvar": (["S", "#V", "1st"], ["a", "b"]), "oddvar2": (["_s", "_x", "#V"], ["a", "_b"])}     # variables starting with a non-letter     # terminals spelt like the reader's epsilon markers
 
 
 def ebnf_bodies():
